@@ -107,14 +107,23 @@ theorem tunnel_once (m : Method) (st : Nat) (e : TunnelEnd) : tunnel m st e = [.
 
 theorem tunnel_connect (e : TunnelEnd) : tunnel .connect 200 e = [.wrote .connect 200] := tunnel_once _ _ e
 
-theorem tunnel_upgrade (m : Method) (e : TunnelEnd) : tunnel m 101 e = [.wrote m 101] := tunnel_once _ _ e
+/-- under the code's rule the head of a tunnel never closes the connection, whatever the request asked for -/
+theorem closesAfterHead_code (cl c2 : Bool) : closesAfterHead .tunnelNeverCloses cl c2 = false := by
+  cases cl <;> cases c2 <;> rfl
+
+theorem tunnelAfter_false (m : Method) (st : Nat) (e : TunnelEnd) : tunnelAfter false m st e = tunnel m st e := by
+  cases e <;> rfl
+
+theorem tunnel_upgrade (m : Method) (cl : Bool) (e : TunnelEnd) :
+    tunnelAfter (closesAfterHead .tunnelNeverCloses cl false) m 101 e = [.wrote m 101] := by
+  rw [closesAfterHead_code, tunnelAfter_false]; exact tunnel_once _ _ e
 
 /-- the core of the exactly-once theorem: every path outside shutdown, no class excluded -/
 theorem events_eq_expected {p : Path} (hg : p.good = true) : p.events = p.expected := by
   cases p with
   | readError => rfl
   | shutdownAfterRead m => simp [Path.good, Path.shutdown] at hg
-  | upgrade m e =>
+  | upgrade m cl e =>
     simp [Path.events, Path.expected, Path.request, Path.clientStatus, tunnel_upgrade]
   | connectTunnel e =>
     simp [Path.events, Path.expected, Path.request, Path.clientStatus, tunnel_connect]
@@ -321,7 +330,7 @@ theorem rem_events (p : Path) : Rem p.events := by
   | responseModifierError m st w => exact rem_read_cons m st w
   | response m st w => exact rem_read_cons m st w
   | upgradeNonWritable m w => exact rem_read_cons m 502 w
-  | upgrade m e =>
+  | upgrade m cl e =>
     simp only [Path.events, tunnel_upgrade]
     exact Or.inr (Or.inl ⟨m, 101, rfl⟩)
   | connectRefused st w => exact rem_read_cons .connect st w
